@@ -4,7 +4,7 @@ from vk.gen import docs as D
 
 PROPERTY = 'C20'
 LEVEL = 'exploration'
-RULE = ('generated documents of three schema families (shop: references, substitution members, xsi:type; tree: recursive '
+RULE = ('generated documents of four schema families (plain: no namespaces at all, empty caller map; shop: references, substitution members, xsi:type; tree: recursive '
         'references; ctx: one local name `item` declared with four different types in different contexts) and the repository '
         'corpus; for every element not matched through a wildcard: the declaration recorded by a class-level recorder on '
         'XsdElement.raw_decode during validation is compared with schema.get_element(tag, path) and find(path).match(tag) for '
